@@ -193,6 +193,8 @@ type Sim struct {
 	Net *Net
 
 	randPos   uint64
+
+	randPos1 uint64 // position of the stream that serves one-byte reads
 	poolStats PoolStats
 	randLog   []RandDraw
 	rootDone  bool
